@@ -12,7 +12,8 @@ RULE_TEXT = ("Seeded generation of workflow graphs (1-5 steps, num_workers 1..4,
              "ctx.send_event/return, sync and async steps) and of every duration/tie on the tape; a run is "
              "non-trivial when some step had >=2 bodies executing simultaneously AND some event had to queue "
              "(PREPARING published); distinct = distinct abstract trace shape (sequence of kinds/steps/workers/"
-             "states without times and uids).")
+             "states without times and uids)."
+             " Collecting bodies may raise after a buffering collect_events (result = collected event + failure) or feed a second collect buffer before looking at either result.")
 COMPONENTS = {"real": ["workflows.* (control loop, reducer, Context, handler, BasicRuntime, retry_policy)"],
               "stub": ["llama_index_instrumentation (no-op dispatcher)"],
               "sim": ["event loop + clock", "executor (sync steps run inline at a tape-chosen instant)"]}
